@@ -105,7 +105,7 @@ let string_of_value = function
 
 let parse_call (s : string) : api_call =
   match String.split_on_char ':' s with
-  | ["r"; n; idx] -> CRead (nat_of_int (int_of_string n), n_of_int (int_of_string idx))
+  | ["r"; n; idx] | ["rd"; n; idx] -> CRead (nat_of_int (int_of_string n), n_of_int (int_of_string idx))
   | ["w"; idx; n; seed] ->
       let n = int_of_string n and seed = int_of_string seed in
       CWrite (List.init n (fun i -> List.map nb (gen_block seed i)), n_of_int (int_of_string idx))
